@@ -340,3 +340,34 @@ func VerifC16_LevelMappingLength() {
 	}
 	sym.Reach("accepted")
 }
+
+// VerifC09_ShortAndEmptyMessagesCounted: messages of 0..3 arbitrary bytes (a
+// blank line before the first record, a stray byte): each is counted exactly
+// once with its byte length - an empty message moves the record count by one
+// and the byte count by nothing -, alone or followed by a second message
+// before the counters are written out.
+//
+//verif:reach empty non-empty
+func VerifC09_ShortAndEmptyMessagesCounted() {
+	n := sym.Choice("len", 4)
+	line := sym.Bytes("line", n, n)
+	env := verifNewParser(nil)
+	rec := env.parser.Parse(line, time.Unix(1600000000, 0)) // obligation: no panic
+	second := sym.Bool("secondMessageBeforeTheUpdate")
+	total, bytes := uint64(1), uint64(n)
+	if second {
+		m := sym.Choice("len2", 3)
+		line2 := sym.Bytes("line2", m, m)
+		env.parser.Parse(line2, time.Unix(1600000001, 0))
+		total, bytes = 2, uint64(n+m)
+	}
+	passed, passedBytes, dropped, droppedBytes, _ := env.counters()
+	sym.Assert(passed+dropped == total, "every message handed to the parser is counted exactly once, however short")
+	sym.Assert(passedBytes+droppedBytes == bytes, "every message is counted with its byte length")
+	sym.Assert(rec == nil, "a message shorter than any record is not handed on")
+	if n == 0 {
+		sym.Reach("empty")
+	} else {
+		sym.Reach("non-empty")
+	}
+}
